@@ -40,7 +40,8 @@ def run_stage(a):
         return digest_h5(out)
     if st == 'refm':
         out = w / f'{tag}_refm.h5'
-        pipeline.run_refmarkers(d / 'stats.h5', out, tmp, n_processors=a['n_processors'], n_valid=a.get('n_valid', 5))
+        kw = {'gene_list': list(a['gene_list'])} if a.get('gene_list') else {}
+        pipeline.run_refmarkers(d / 'stats.h5', out, tmp, n_processors=a['n_processors'], n_valid=a.get('n_valid', 5), **kw)
         return digest_h5(out)
     if st == 'qmark':
         lk = pipeline.run_query_markers(d / 'refm.h5', a['genes'], d / 'stats.h5', tmp, n_processors=a['n_processors'],
